@@ -171,7 +171,7 @@ func runC16(c *Ctx) {
 					if LoadedField(b.X) == ewErrF {
 						errPath = true
 					}
-					if ex, ok := b.X.(*ssa.Extract); ok && ex.Index == 1 {
+					if ex, ok := cp.ResolveAt(b.X, b.Block()).(*ssa.Extract); ok && ex.Index == 1 {
 						errPath = true
 					}
 				}
